@@ -123,6 +123,41 @@ def run(rng, tier, model_ok):
                 return None
             items.append(("%s + %s %s" % (ys, xs, a), adopt))
             items.append(("%s %s - %s" % (xs, a, ys), adopt))
+    # every unit word as the second factor of a product written with a blank ("1 A as", "3 V ms", "1 N to"?): a blank multiplies,
+    # whatever the word is -- also when it looks like an English word; the product is commensurable with its spelling with *
+    short = sorted({w_ for v_ in V.names for w_ in V.names[v_] if len(w_) <= 3 and w_.isascii() and w_.isalpha() and w_ != "to"})
+    pref1 = sorted({pf for _, pf in V.prefixes if len(pf) == 1 and pf.isascii() and pf.isalpha()})
+    combos = sorted({pf + n_ for pf in pref1 for n_ in ("s", "m", "g", "A", "K", "l", "t", "h", "a", "N", "V", "W", "J", "B")})
+    if tier == "quick":
+        short = rng.sample(short, min(len(short), 110)) + rng.sample(combos, min(len(combos), 60)) + [w_ for w_ in ("as", "am", "at", "in", "min", "a", "h", "fs", "ms") if w_ in short or w_ in combos]
+    else:
+        short = short + combos
+    short = sorted(set(short))
+    sread2 = dict(zip(short, unitlib.impl_units(short)))
+    lefts = {"A": None, "m": None, "V": None}
+    lread = dict(zip(sorted(lefts), unitlib.impl_units(sorted(lefts))))
+    nblank = 0
+    for w_ in short:
+        nw = sread2.get(w_)
+        if not nw or V.has_offset(nw):
+            continue
+        for l_ in sorted(lefts):
+            nl = lread.get(l_)
+            if not nl or [x[0] for x in nl] == [x[0] for x in nw]:
+                continue
+            both = [tuple(x) for x in nl] + [tuple(x) for x in nw]
+
+            def bo(reply, both=both):
+                v = pipeline.single_value(reply)
+                if v is None:
+                    return {"why": "a product of two units written with a blank is not commensurable with the same product written with *", "expected": "a number"}
+                if V.si(v[0], v[1], v[2]) != 3 * V.scale(both):
+                    return {"why": "SI value %s, expected %s" % (V.si(v[0], v[1], v[2]), 3 * V.scale(both))}
+                return None
+            items.append(("3 %s %s to %s*%s" % (l_, w_, l_, w_), bo))
+            items.append(("1 %s %s + 2 %s*%s" % (l_, w_, l_, w_), bo))
+            nblank += 2
+    stats["blank_products_with_every_word"] = nblank
     # operands that are the result of arithmetic: a plain number over a quantity has the inverse dimensions, a power the multiple
     simple = ["s", "m", "kg", "hr", "ft", "N", "Hz", "l"]
     sread = dict(zip(simple, unitlib.impl_units(simple)))
